@@ -49,6 +49,8 @@ func valueOf(kind string, seed uint64, col, j int) string {
 		sep := joinSeps[int(seed%uint64(len(joinSeps)))]
 		sep2 := joinSeps[int((seed/13)%uint64(len(joinSeps)))]
 		return []string{"p", "q", "r", "p" + sep + "q", "q" + sep + "r", "p" + sep2 + "q", "q" + sep2 + "r", "p" + sep + "q" + sep + "r", ""}[j%9]
+	case "huge":
+		return hugeValue(j)
 	case "boundary":
 		// near-duplicate pairs (equal but for the last byte) whose length, together with the
 		// column name, sits at and around powers of two: fixed-size buffers, page and key limits
@@ -95,8 +97,23 @@ var boundaryTotals = []int{15, 16, 17, 31, 32, 33, 63, 64, 65, 127, 128, 129, 13
 var orderTraps = []string{"", "A", "B", "a", "ab", "abc", "b", "Z", "z", "é", "É", "a\x00", "a ", " a", "10", "9", "2", "-1", "\xff", "~", "aB", "Ab", "ÿ", "日", "a\n"}
 
 func (sp *DataSpec) Expand() []Row {
-	rows := make([]Row, 0, sp.N+sp.TrailingEmpty)
-	for i := 0; i < sp.N; i++ {
+	// the exotic shapes stay affordable whatever a world did to N after drawing the spec: the disk-backed
+	// writer stores one key per cell, every AddRow hashes the column names
+	n := sp.N
+	if len(sp.Cols) >= 20 && n*len(sp.Cols) > 40000 {
+		n = 40000 / len(sp.Cols)
+	}
+	for _, cs := range sp.Cols {
+		if (cs.Kind == "huge" || len(cs.Name) >= 255) && n > 5000 {
+			n = 5000
+		}
+		if len(cs.Name) >= 4096 && n > 500 {
+			n = 500 // every map operation on a row hashes the name
+		}
+	}
+	rows := make([]Row, 0, n+sp.TrailingEmpty)
+	long := map[[2]int]S{} // long values are built once per (column, value number)
+	for i := 0; i < n; i++ {
 		hi := simrt.Hash3(sp.Seed, uint64(i), 0)
 		if int(hi%1000) < sp.EmptyRowPM {
 			rows = append(rows, Row{})
@@ -123,7 +140,7 @@ func (sp *DataSpec) Expand() []Row {
 				}
 			case "run":
 				// long runs of equal values in row order
-				run := sp.N/card + 1
+				run := n/card + 1
 				j = (i / run) % card
 			case "sparse":
 				// value 0 dominates, the others are rare
@@ -137,8 +154,17 @@ func (sp *DataSpec) Expand() []Row {
 			default:
 				j = int((h >> 10) % uint64(card))
 			}
-			if cs.Kind == "boundary" {
-				r = append(r, [2]S{cs.Name, S(boundaryValue(len(cs.Name), j))})
+			if cs.Kind == "boundary" || cs.Kind == "huge" {
+				v, ok := long[[2]int{c, j}]
+				if !ok {
+					if cs.Kind == "huge" {
+						v = S(hugeValue(j))
+					} else {
+						v = S(boundaryValue(len(cs.Name), j))
+					}
+					long[[2]int{c, j}] = v
+				}
+				r = append(r, [2]S{cs.Name, v})
 			} else {
 				r = append(r, [2]S{cs.Name, S(valueOf(cs.Kind, sp.Seed, c, j))})
 			}
@@ -211,7 +237,65 @@ func GenDataSpec(r *simrt.Rand, n int, wantUnique bool) *DataSpec {
 	if wantUnique {
 		sp.Unique = "u"
 	}
+	if r.Chance(1, 12) {
+		sp.exotic(r)
+	}
 	return sp
+}
+
+// exotic widens a dataset along one dimension the ordinary shapes keep small: the number of columns, the length
+// of a column name, the length of values (around 64 KiB: 16-bit length fields).
+func (sp *DataSpec) exotic(r *simrt.Rand) {
+	switch r.Intn(3) {
+	case 0:
+		if sp.N > 3000 {
+			return
+		}
+		n := []int{20, 63, 64, 65, 100, 255, 256, 257, 300}[r.Intn(9)]
+		if sp.N*n > 40000 {
+			sp.N = 40000 / n // the disk-backed writer stores one key per cell
+		}
+		for c := len(sp.Cols); c < n; c++ {
+			cs := ColSpec{Name: S(fmt.Sprintf("w%03d", c)), Card: r.Range(1, 3), Shape: "uniform", Kind: "num"}
+			if r.Chance(1, 2) {
+				cs.Missing = []int{300, 700, 950}[r.Intn(3)]
+			}
+			sp.Cols = append(sp.Cols, cs)
+		}
+	case 1:
+		if sp.N > 5000 {
+			return // every AddRow hashes the name
+		}
+		l := []int{255, 256, 257, 1023, 1024, 1025, 4096, 65535, 65536, 65537}[r.Intn(10)]
+		i := r.Intn(len(sp.Cols))
+		sp.Cols[i].Name = S(strings.Repeat("k", l-2) + "_" + fmt.Sprint(i%10))
+	case 2:
+		if sp.N > 5000 {
+			return
+		}
+		i := r.Intn(len(sp.Cols))
+		sp.Cols[i].Kind, sp.Cols[i].Card, sp.Cols[i].Shape, sp.Cols[i].Missing = "huge", 8, "uniform", 900
+		if sp.N < 30 {
+			sp.Cols[i].Missing = 300
+		}
+	}
+}
+
+// Heavy reports whether names or values of the dataset are so long that expressions over them must stay small.
+func (sp *DataSpec) Heavy() bool {
+	for _, c := range sp.Cols {
+		if c.Kind == "huge" || len(c.Name) >= 1024 {
+			return true
+		}
+	}
+	return false
+}
+
+var hugeLens = []int{65535, 65536, 65537, 70001}
+
+// hugeValue: pairs of values of 64 KiB-ish length that differ only in the last byte.
+func hugeValue(j int) string {
+	return strings.Repeat("h", hugeLens[(j/2)%len(hugeLens)]-1) + string(rune('a'+j%2))
 }
 
 // weirdColumnNames: legal column names for the library and the wire (any string without NUL)
@@ -280,7 +364,7 @@ type ExprOpts struct {
 
 func genLeaf(r *simrt.Rand, si *schemaInfo, o ExprOpts) *Expr {
 	if len(si.cols) == 0 || (o.UnknownCol && r.Chance(1, 6)) {
-		return Eq("nosuchcol", "v0")
+		return Eq(unknownCol(r, si), "v0")
 	}
 	c := si.cols[r.Intn(len(si.cols))]
 	if c == o.SkipCol && len(si.cols) > 1 {
@@ -288,7 +372,7 @@ func genLeaf(r *simrt.Rand, si *schemaInfo, o ExprOpts) *Expr {
 	}
 	vs := si.vals[c]
 	if r.Chance(1, 8) || len(vs) == 0 {
-		return Eq(c, "absent-value")
+		return Eq(c, absentValue(r, si, c))
 	}
 	return Eq(c, vs[r.Intn(len(vs))])
 }
@@ -335,6 +419,12 @@ func genNary(r *simrt.Rand, si *schemaInfo, depth int, o ExprOpts, op string) *E
 		// a wide node is only informative if single operands matter: many copies of one leaf
 		// plus ONE different operand (often the last one)
 		base := genLeaf(r, si, o)
+		for try := 0; try < 8 && (len(base.Val) > 300 || len(base.Col) > 300); try++ {
+			base = genLeaf(r, si, o) // a thousand copies of a 64 KiB operand make a 64 MiB case
+		}
+		if len(base.Val) > 300 || len(base.Col) > 300 {
+			ar = 31 + ar%3
+		}
 		if op == "or" {
 			base = Eq(string(base.Col), "absent-value")
 		}
@@ -364,11 +454,93 @@ func genNary(r *simrt.Rand, si *schemaInfo, depth int, o ExprOpts, op string) *E
 	return e
 }
 
+func plainName(s string) bool {
+	if s == "" || (s[0] >= '0' && s[0] <= '9') {
+		return false
+	}
+	for i := 0; i < len(s); i++ {
+		c := s[i]
+		if !(c == '_' || (c >= '0' && c <= '9') || (c >= 'a' && c <= 'z') || (c >= 'A' && c <= 'Z')) {
+			return false
+		}
+	}
+	return true
+}
+
+// unknownCol returns a column name that occurs in no row: a fixed one, or a near miss of an existing name (one
+// byte more or less, other case, doubled), and, where the dataset itself has names that are no identifiers, joins
+// of two existing names with a separator, padded names and the empty name.
+func unknownCol(r *simrt.Rand, si *schemaInfo) string {
+	if len(si.cols) == 0 || r.Chance(1, 3) {
+		return "nosuchcol"
+	}
+	weird := false
+	for _, x := range si.cols {
+		if !plainName(x) {
+			weird = true
+		}
+	}
+	c := si.cols[r.Intn(len(si.cols))]
+	cand := []string{c + "x", c + "_", strings.ToUpper(c), strings.ToLower(c), c + c}
+	if len(c) > 1 {
+		cand = append(cand, c[:len(c)-1], c[1:])
+	}
+	if weird {
+		d := si.cols[r.Intn(len(si.cols))]
+		for _, sep := range []string{",", " ", ";", "|", "\x1f", "=", "/", ""} {
+			cand = append(cand, c+sep+d)
+		}
+		cand = append(cand, c+" ", " "+c, "")
+	}
+	start := r.Intn(len(cand))
+	for i := range cand {
+		x := cand[(start+i)%len(cand)]
+		if indexOf(si.cols, x) < 0 && (weird || plainName(x)) && !strings.Contains(x, "\x00") && len(x) < 300 {
+			switch strings.ToLower(x) {
+			case "and", "or", "not", "in", "group", "by", "count", "select", "from", "where":
+				continue
+			}
+			return x
+		}
+	}
+	return "nosuchcol"
+}
+
+// absentValue returns a value that column c never takes: a fixed one, a value of another column, or a near miss
+// of one of its own values (one byte more or less, other case), or the empty string.
+func absentValue(r *simrt.Rand, si *schemaInfo, c string) string {
+	vs := si.vals[c]
+	if len(vs) == 0 || r.Chance(1, 3) {
+		return "absent-value"
+	}
+	v := vs[r.Intn(len(vs))]
+	if len(v) > 300 {
+		v = v[:300]
+	}
+	cand := []string{v + "x", v + " ", v + "\x00", strings.ToUpper(v), strings.ToLower(v), "", " " + v, v + v}
+	if len(v) > 1 {
+		cand = append(cand, v[:len(v)-1], v[1:])
+	}
+	d := si.cols[r.Intn(len(si.cols))]
+	if ws := si.vals[d]; d != c && len(ws) > 0 {
+		cand = append(cand, ws[r.Intn(len(ws))], ws[0])
+	}
+	cand = append(cand, c) // the column's own name
+	start := r.Intn(len(cand))
+	for i := range cand {
+		x := cand[(start+i)%len(cand)]
+		if indexOf(vs, x) < 0 {
+			return x
+		}
+	}
+	return "absent-value"
+}
+
 // GenGroupBy draws a group-by list of length 0..maxLen over existing, repeated and (rarely) unknown columns.
 func GenGroupBy(r *simrt.Rand, si *schemaInfo, maxLen int, allowUnknown bool) (out []S) {
 	if len(si.cols) == 0 {
 		if allowUnknown && r.Chance(1, 4) {
-			return []S{"nosuchcol"}
+			return []S{S(unknownCol(r, si))}
 		}
 		return nil
 	}
@@ -394,7 +566,7 @@ func GenGroupBy(r *simrt.Rand, si *schemaInfo, maxLen int, allowUnknown bool) (o
 	for i := 0; i < n; i++ {
 		switch {
 		case allowUnknown && r.Chance(1, 25):
-			out = append(out, "nosuchcol")
+			out = append(out, S(unknownCol(r, si)))
 		case i > 0 && r.Chance(1, 8):
 			out = append(out, out[r.Intn(len(out))])
 		default:
